@@ -150,6 +150,12 @@ def op_strategies(nparts, ngroups, profile):
         'freezeflip': st.tuples(idx, st.lists(idx, min_size=1, max_size=2))
         .map(lambda t: ['macro', [['freeze', t[0], t[1]],
                                   ['unfreeze', t[0]]]]),
+        # macro: the reboot time of the servers passes and a renewal is
+        # requested for a running instance
+        'renewold': st.tuples(st.sampled_from([3 * DAY, 22 * DAY, 22 * DAY]),
+                              idx)
+        .map(lambda t: ['macro', [['adv', t[0]], ['renew', t[1]],
+                                  ['cycle']]]),
         # macro: a server is frozen with an instance named, removed before
         # any cycle, and later another server is frozen without naming anyone
         'stalemark': st.tuples(st.integers(0, 15).map(lambda v: 4 * v),
@@ -182,7 +188,7 @@ def flatten(ops):
 DEFAULT_WEIGHTS = {
     'app': 10, 'clone': 2, 'rm': 2, 'prio': 1, 'move': 1, 'srv': 1, 'rmsrv': 1,
     'readd': 1, 'down': 2, 'up': 2, 'downseq': 0, 'freezeflip': 0,
-    'orphanbl': 0, 'stalemark': 0, 'freeze': 1, 'unfreeze': 1, 'bl': 1,
+    'orphanbl': 0, 'stalemark': 0, 'renewold': 0, 'freeze': 1, 'unfreeze': 1, 'bl': 1,
     'renew': 1, 'idg': 1, 'rmidg': 1, 'strat': 1, 'adv': 2, 'adv_ret': 1,
     'tick': 1, 'cycle': 8,
 }
